@@ -403,12 +403,16 @@ def special_names(rng, anns, mode):
         anns[rng.choice(idx)] = anns[0]
     elif mode == 'empty' and idx:
         anns[rng.choice(idx)] = ''
+    elif mode == 'long' and idx:
+        # the longest names Tezos accepts for an entrypoint (31 characters) and their neighbours
+        n = rng.choice([31, 31, 30, 29, 16])
+        anns[rng.choice(idx)] = ('transfer_ownership_of_the_token_x' * 2)[:n] if rng.random() < 0.5 else ''.join(rng.choice('abcXYZ019_') for _ in range(n))
     elif mode == 'root=default' and anns:
         anns[0] = rng.choice(['default', 'root', ''])
     return anns
 
 
-MODES = ['plain', 'plain', 'plain', 'default', 'root', 'default+root', 'dup', 'root-shadow', 'empty', 'root=default']
+MODES = ['plain', 'plain', 'plain', 'default', 'root', 'default+root', 'dup', 'root-shadow', 'empty', 'root=default', 'long']
 
 
 def gen_types(ctx):
